@@ -17,36 +17,41 @@ type wkind struct {
 }
 
 var wkinds = []wkind{
-	{Name: "if"},                          // 0  if true { . }
-	{Name: "elif"},                        // 1  if false { } else if true { . }
-	{Name: "else"},                        // 2  if false { } else if false { } else { . }
-	{Name: "elifcond"},                    // 3  if false { } else if (a += K) > 0 { . }       (assignment expression in the else-if condition)
+	{Name: "if"},       // 0  if true { . }
+	{Name: "elif"},     // 1  if false { } else if true { . }
+	{Name: "else"},     // 2  if false { } else if false { } else { . }
+	{Name: "elifcond"}, // 3  if false { } else if (a += K) > 0 { . }       (assignment expression in the else-if condition)
 	{Name: "loop1", Loop: true, NoCont: true}, // 4  for { . ; break }
-	{Name: "loop2", Loop: true},           // 5  k = 0; for { k = k + 1; if k > 2 { break }; . }
-	{Name: "while1", Loop: true},          // 6  k = 0; for k < 1 { k = k + 1; . }
-	{Name: "while2", Loop: true},          // 7  k = 0; for k < 2 { k = k + 1; . }
-	{Name: "cfor1", Loop: true},           // 8  for i = 0; i < 1; i++ { . }
-	{Name: "cfor2", Loop: true},           // 9  for i = 0; i < 2; i++ { . }
-	{Name: "forin1", Loop: true},          // 10 for x in [v] { . }
-	{Name: "forin2", Loop: true},          // 11 for x in [v, w] { . }
-	{Name: "forinA2", Loop: true},         // 12 for a in [v, w] { . }                            (pool name as loop variable)
-	{Name: "case", Switch: true},          // 13 switch 1 { case 1: . }
-	{Name: "default", Switch: true},       // 14 switch 1 { case 2: default: . }
-	{Name: "try", TryB: true},             // 15 try { . } catch { READ }
-	{Name: "tryfin", TryB: true},          // 16 try { . } catch { READ } finally { READ }
-	{Name: "catch"},                       // 17 try { throw } catch e { . }
-	{Name: "catchA"},                      // 18 try { throw } catch a { . }                      (pool name as catch variable)
-	{Name: "catchL"},                      // 19 try { var a = v; throw } catch { . }             (try-body local)
-	{Name: "finally"},                     // 20 try { } catch { } finally { . }
-	{Name: "finallyT"},                    // 21 try { var b = v; throw } catch { } finally { . }
-	{Name: "module"},                      // 22 module M { . }; READ M.a M.b
-	{Name: "func", Func: true},            // 23 func f() { . }; f()
-	{Name: "funcA", Func: true},           // 24 func f(a) { . }; f(v)                            (pool name as parameter)
-	{Name: "anon", Func: true},            // 25 func() { . }()
-	{Name: "closure", Func: true},         // 26 g = func() { . }            ... called twice at the end of the program
-	{Name: "closureL", Func: true},        // 27 if true { var a = v; g = func() { . } }  ... called twice at the end of the program
-	{Name: "rec", Func: true},             // 28 func f(n) { var a = n + v; if n > 0 { f(n - 1) } else { . }; READ }; f(1)
-	{Name: "recA", Func: true},            // 29 func f(a) { if a > v { f(a - 1) } else { . }; READ }; f(v + 1)
+	{Name: "loop2", Loop: true},               // 5  k = 0; for { k = k + 1; if k > 2 { break }; . }
+	{Name: "while1", Loop: true},              // 6  k = 0; for k < 1 { k = k + 1; . }
+	{Name: "while2", Loop: true},              // 7  k = 0; for k < 2 { k = k + 1; . }
+	{Name: "cfor1", Loop: true},               // 8  for i = 0; i < 1; i++ { . }
+	{Name: "cfor2", Loop: true},               // 9  for i = 0; i < 2; i++ { . }
+	{Name: "forin1", Loop: true},              // 10 for x in [v] { . }
+	{Name: "forin2", Loop: true},              // 11 for x in [v, w] { . }
+	{Name: "forinA2", Loop: true},             // 12 for a in [v, w] { . }                            (pool name as loop variable)
+	{Name: "case", Switch: true},              // 13 switch 1 { case 1: . }
+	{Name: "default", Switch: true},           // 14 switch 1 { case 2: default: . }
+	{Name: "try", TryB: true},                 // 15 try { . } catch { READ }
+	{Name: "tryfin", TryB: true},              // 16 try { . } catch { READ } finally { READ }
+	{Name: "catch"},                           // 17 try { throw } catch e { . }
+	{Name: "catchA"},                          // 18 try { throw } catch a { . }                      (pool name as catch variable)
+	{Name: "catchL"},                          // 19 try { var a = v; throw } catch { . }             (try-body local)
+	{Name: "finally"},                         // 20 try { } catch { } finally { . }
+	{Name: "finallyT"},                        // 21 try { var b = v; throw } catch { } finally { . }
+	{Name: "module"},                          // 22 module M { . }; READ M.a M.b
+	{Name: "func", Func: true},                // 23 func f() { . }; f()
+	{Name: "funcA", Func: true},               // 24 func f(a) { . }; f(v)                            (pool name as parameter)
+	{Name: "anon", Func: true},                // 25 func() { . }()
+	{Name: "closure", Func: true},             // 26 g = func() { . }            ... called twice at the end of the program
+	{Name: "closureL", Func: true},            // 27 if true { var a = v; g = func() { . } }  ... called twice at the end of the program
+	{Name: "rec", Func: true},                 // 28 func f(n) { var a = n + v; if n > 0 { f(n - 1) } else { . }; READ }; f(1)
+	{Name: "recA", Func: true},                // 29 func f(a) { if a > v { f(a - 1) } else { . }; READ }; f(v + 1)
+	// a function literal NAMED a, declared and called inside a head expression (the only way an expression can bind a name)
+	{Name: "elifF", Func: true},   // 30 if false { } else if func a() { . }() == 1 { }
+	{Name: "switchF", Func: true}, // 31 switch func a() { . }() { case 1: }
+	{Name: "caseF", Func: true},   // 32 switch 1 { case func a() { . }(): }
+	{Name: "cforF", Func: true},   // 33 for var i, j = 0, func a() { . }(); i < 1; i++ { }
 }
 
 // ---------- spine descriptor ----------
@@ -91,8 +96,8 @@ func (d desc) legal() bool {
 }
 
 // which under-determined points can this program observe?  (over-approximation)
-func (d desc) relevant() [6]bool {
-	var rel [6]bool
+func (d desc) relevant() [nDims]bool {
+	var rel [nDims]bool
 	for _, w := range d.W {
 		switch {
 		case w >= 4 && w <= 7:
@@ -103,6 +108,12 @@ func (d desc) relevant() [6]bool {
 			rel[2] = true
 		case w >= 15 && w <= 21:
 			rel[3] = true
+		case w == 30:
+			rel[6] = true
+		case w == 31 || w == 32:
+			rel[7] = true
+		case w == 33:
+			rel[1], rel[8] = true, true
 		}
 		if wkinds[w].TryB && d.Exit >= 1 && d.Exit <= 3 {
 			rel[4] = true
@@ -119,9 +130,9 @@ func (d desc) relevant() [6]bool {
 
 // ---------- building the program ----------
 
-func cst(n int64) *expr            { return &expr{K: 'c', C: n} }
+func cst(n int64) *expr              { return &expr{K: 'c', C: n} }
 func assign(n string, e *expr) *stmt { return &stmt{Op: opAssign, Name: n, E: e} }
-func read(tag string) *stmt        { return &stmt{Op: opRead, Tag: tag} }
+func read(tag string) *stmt          { return &stmt{Op: opRead, Tag: tag} }
 
 type builder struct {
 	pre  []*stmt // declarations at the very top (closure holders)
@@ -215,6 +226,14 @@ func (b *builder) construct(kind, k int, slot []*stmt) []*stmt {
 			read("L" + sfx),
 		}
 		return []*stmt{{Op: opFunc, Name: f, Params: []string{"a"}, Body: body}, {Op: opCall, Name: f, Args: []*expr{cst(K + 9)}}}
+	case 30:
+		return []*stmt{{Op: opIf, Arms: []arm{{ff, nil}, {&cond{K: 'F', N: "a", Fn: &fnlit{Body: slot}}, nil}}}}
+	case 31:
+		return []*stmt{{Op: opSwitch, HeadFn: &fnlit{Body: slot}}}
+	case 32:
+		return []*stmt{{Op: opSwitch, CaseFn: &fnlit{Body: slot}}}
+	case 33:
+		return []*stmt{{Op: opCFor, Name: "i" + sfx, N: 1, InitFn: &fnlit{Body: slot}}}
 	}
 	panic("bad construct kind")
 }
